@@ -37,7 +37,10 @@ class Universe(object):
     def __init__(self, workers=2, tasks=2, clients=1, qcap=6, task_kinds=None, cb_kinds=None,
                  max_threads=2, min_threads=1, queue_size=0, timeout_none=False, gates=1, regs=2):
         self.W, self.M, self.C, self.Q = workers, tasks, clients, qcap
-        self.task_kinds = list(task_kinds or ["ret"] * tasks)
+        kinds = list(task_kinds or ["ret"] * tasks)
+        # a "_noname" suffix marks a callable without __name__ (functools.partial, callable object)
+        self.task_noname = [k.endswith("_noname") for k in kinds]
+        self.task_kinds = [k.replace("_noname", "") for k in kinds]
         self.cb_kinds = list(cb_kinds or ["ret"] * regs)
         self.max_threads, self.min_threads = max_threads, min_threads
         self.queue_size = queue_size
@@ -118,6 +121,7 @@ EXC_CLASSES = {
     "IOError": {"OSError"},
     "ValueError": {"ValueError"},
     "TypeError": {"TypeError"},
+    "AttributeError": {"AttributeError"},
 }
 
 
@@ -1474,6 +1478,26 @@ class StmtLowering(object):
                 recv0 = None
             if recv0 is not None and (recv0.sort == "Logger" or (
                     recv0.sort == "Opaque" and f.attr in ("debug", "info", "warning", "error", "exception", "critical", "format"))):
+                named = []
+                for a in args:
+                    for part in ast.walk(a):
+                        if (isinstance(part, ast.Attribute) and part.attr == "__name__" and isinstance(part.value, ast.Name)
+                                and ctx.locals.get(part.value.id, (None,))[0] == "Task"):
+                            named.append(self.ex.compile(part.value, ctx))
+                if named and any(U.task_noname):
+                    # evaluating <callable>.__name__ fails for callables that have none
+                    target = self.raise_target(ctx, "AttributeError")
+
+                    def run(env, named=named):
+                        missing = False
+                        for v in named:
+                            idx = sub(v.fn(env), U.TASK0)
+                            for i in range(U.M):
+                                if U.task_noname[i]:
+                                    missing = or_(missing, eq(idx, i))
+                        return [(missing, {env.lname("exc"): U.EXC_VALUE}, target.pc), (not_(missing), {}, k.pc)]
+
+                    return Label(self.node(line, "log (reads __name__)", run, kind="stmt" if line else "internal"))
                 return self.simple(line, "no-op " + f.attr, None, k, kind="stmt" if line else "internal")
         # ---- task body: method(*args, **kwargs) ---------------------------------------
         if isinstance(f, ast.Name) and f.id in ctx.locals and ctx.locals[f.id][0] == "id" and len(args) == 3 \
